@@ -2,6 +2,7 @@ import ElvisVerif.Model.TcpSys
 import ElvisVerif.Spec.Rfc9293
 import ElvisVerif.Lemmas.TcbPath
 import ElvisVerif.Lemmas.TcbIrs
+import ElvisVerif.Lemmas.TcbSeq
 import ElvisVerif.Props.C17
 /-!
 # C03 — TCP connections open, synchronise and close as RFC 9293 prescribes
@@ -471,6 +472,42 @@ theorem c03_irs_stable_run (s : Tcb) (hw : Wf s) (hi : HeapIdle s) (h : s.state 
       cases e'
       obtain ⟨wf1, idle1⟩ := wf' s1 rfl
       exact ⟨fun s' hs => by cases hs; exact k1, ih s1 wf1 idle1 k2 (fun c hc => hcs c (by simp [hc]))⟩
+
+/-! ## synchronisation: RCV.NXT never passes what the peer has sent -/
+
+/-- **The receive half of `c03_synchronised`** (full strength, single endpoint, every state,
+    every segment).  Let `base` be the peer's ISS and `base + N` its `SND.NXT` (`N < 2^31`: fewer
+    than 2^31 sequence numbers used, the usual segment-lifetime assumption).  If the arriving
+    segment and every segment waiting in the reorder queue occupy sequence numbers below
+    `base + N` only (a SYN sits at `base`) — which is what "the peer has sent" means —, then after
+    `segment_arrives` `RCV.NXT` is at most `N` ahead of `base`, i.e. `RCV.NXT =< SND.NXT_peer`
+    circularly, it has not moved backwards, SYN-SENT has not been re-entered, and what is still
+    parked is still below.  No hypothesis on flags, acknowledgment numbers, windows, order,
+    duplication or loss.
+
+    What is NOT proved here (and therefore `_partial`): that every segment a peer's TCB emits
+    lies below its `SND.NXT` (the send half) and `SND.UNA_peer =< RCV.NXT` (the acknowledgment
+    half), and the equality at quiescence; these three are evaluated by the native oracle on the
+    real code after every op (`synchronised …` idents in `harness/hcore/src/props/c03.rs`). -/
+theorem c03_synchronised_partial (s : Tcb) (segment : Segment) (s' : Tcb)
+    (e : s.segmentArrives segment = .ok (s', .Ok))
+    (base : Seq) (N : Nat) (hN : N < 2147483648)
+    (hb : s.state ≠ .SynSent → off base s.rcv.nxt ≤ N)
+    (hseg : SegBelow base N segment) (hh : ∀ σ ∈ s.incoming.segments, SegBelow base N σ) :
+    (s'.state ≠ .SynSent → off base s'.rcv.nxt ≤ N) ∧
+    (s.state ≠ .SynSent → off base s.rcv.nxt ≤ off base s'.rcv.nxt ∧ s'.state ≠ .SynSent) ∧
+    (∀ σ ∈ s'.incoming.segments, SegBelow base N σ) := by
+  obtain ⟨t, hh'⟩ := segmentArrives_rcv s segment s' e base N hN hb hseg hh
+  exact ⟨t.below, fun h => ⟨t.mono h, t.notBack h⟩, hh'⟩
+
+/-- the hypotheses are satisfiable and the statement is not vacuous: the handshake of
+    `handshake`, B's SYN-ACK (sequence number 5000 = `base`, one sequence number) arriving at A in
+    SYN-SENT with `N = 1`: afterwards `RCV.NXT_A = 5001 = base + 1` -/
+example : ∃ s s' : Tcb, ∃ seg : Segment, s.segmentArrives seg = .ok (s', .Ok) ∧
+    SegBelow (5000#32) 1 seg ∧ s'.state = .Established ∧ off (5000#32) s'.rcv.nxt = 1 := by
+  refine ⟨{ localPort := 0xcafe#16, remotePort := 0xdead#16, mtu := 1500#16, initiation := .Open,
+            state := .SynSent, snd := { iss := 1000#32, una := 1000#32, nxt := 1001#32 }, rcv := {} },
+          _, forge .A 18 5000 1001 65535 [], rfl, ⟨fun _ => rfl, fun _ => by decide⟩, by decide, by decide⟩
 
 end C03
 end Elvis.Tcp
